@@ -390,7 +390,8 @@ def rule_rd_decode(cx, rep, port):
             unflushed = any(g.exists_path(n, lambda x: x is g.exit, avoid=is_flush, edge_ok=NORMAL) for n in dn)
             rep.decide(not unflushed, 'one-shot decode in ' + home.name, d, 'streaming decode is flushed before the function ends', '{}() decodes its complete input with {{stream: true}} and never flushes the decoder: a truncated multi-byte character at the end of the data is swallowed instead of raising the decoding error'.format(home.name))
         end = p.func('rbql_csv', 'CSVRecordIterator.process_data_stream_end')
-        fl = [f for f in flushes if enclosing_func(f) is end]
+        end_homes = _private_helpers(it, 'process_data_stream_end')[0]
+        fl = [f for f in flushes if enclosing_func(f) is end or (enclosing_func(f) is not None and enclosing_func(f).name in end_homes and methods_.get(enclosing_func(f).name) is enclosing_func(f))]
         rep.decide(bool(fl), 'final flush', fl[0] if fl else end, 'the decoder is flushed at end of stream', 'the decoder is never flushed at end of stream: an incomplete trailing character goes unnoticed')
         # decode errors are mapped to the IO error
         chunkfn = p.func('rbql_csv', 'CSVRecordIterator.process_data_stream_chunk')
@@ -635,7 +636,12 @@ def rule_rd_eof(cx, rep, port):
             t = flush[0].test
             pos = isinstance(t, ast.Call) and dotted(t.func) == 'len' or (isinstance(t, ast.Compare) and isinstance(t.ops[0], (ast.Gt, ast.NotEq)))
             ok = bool(calls) and pos
-        rep.decide(ok, 'final line', flush[0] if flush else end, 'a non-empty partial line is processed as the last line', 'the partial line left at end of stream is not processed as a final line')
+        sv = _jschunk_stream_verdict(cx, p)
+        if sv is not None:
+            rep.decide(sv[0], 'final line', end, 'a non-empty partial line is processed as the last line (abstract stream model: ' + sv[1][:80] + ')', sv[1])
+        else:
+            with rep.as_fallback('the stream reader is outside the abstract interpreter'):
+                rep.decide(ok, 'final line', flush[0] if flush else end, 'a non-empty partial line is processed as the last line', 'the partial line left at end of stream is not processed as a final line')
         # the flush may live in a method that end-of-stream handling calls unconditionally
         scopes = [end]
         it_cls = p.cls('rbql_csv', 'CSVRecordIterator')
@@ -1307,6 +1313,26 @@ def rule_rd_replay(cx, rep, port):
 
 # ------------------------------------------------------------------------------------------------ javascript chunk pipeline
 def _jschunk_model(cx, rep, p, tier):
+    r_ = _jschunk_model_impl(cx, rep, p, tier)
+    return r_
+
+
+def _jschunk_stream_verdict(cx, p):
+    """None: the abstract stream model cannot evaluate the reader; else (ok, message)"""
+    key = '_jschunk_verdict'
+    if key not in cx.__dict__:
+        from ..core import Report
+        tmp = Report('tmp', 'quick')
+        ok = _jschunk_model_impl(cx, tmp, p, 'quick')
+        if not ok:
+            cx.__dict__[key] = None
+        else:
+            v = [o for o in tmp.obs if o.key == 'complete lines']
+            cx.__dict__[key] = (v[0].verdict == 'HOLDS', v[0].detail) if v else None
+    return cx.__dict__[key]
+
+
+def _jschunk_model_impl(cx, rep, p, tier):
     """the JS stream reader decided on an abstract stream: texts over {CR, LF, x} (x = any other character) of bounded length, cut into
     chunks in every possible way, are fed to process_data_stream_chunk / process_data_stream_end (and whole to process_data_bulk); the
     lines handed to process_line must be the lines of the text (breaks CRLF | CR | LF, a final line without a break included, no
